@@ -66,6 +66,13 @@ def quire_streams(tier, seed, exes):
     return jobs
 
 
+def replay_jobs(prop, path, exes):
+    """re-run the inputs of a replay / corpus file through the CURRENT headers (posit lines only)"""
+    if "h_posit" in exes and prop in ("C01", "C03", "C04", "C06"):
+        return [dict(exe=exes["h_posit"], args=["file", path], label="posit re-run of " + os.path.basename(path))]
+    return []
+
+
 CONTRIB = {
     "C01": dict(
         harness=["h_posit"],
